@@ -88,11 +88,13 @@ Definition parse_l (a : list tok) : ldecl :=
   let k := Z.to_nat nalpn in
   let alpn := if nalpn <? 0 then None else Some (map tbs (firstn k (skipn 1 rest))) in
   let rest2 := skipn (1 + k) rest in
-  let pay := skipn 1 rest2 in
+  let npay := Z.to_nat (tz (nth_tok 0 rest2)) in
+  let pay := firstn npay (skipn 1 rest2) in
+  let ext := skipn (2 + npay) rest2 in
   mk_ldecl (tbs (nth_tok 0 fixed)) (tz (nth_tok 1 fixed)) (tz (nth_tok 2 fixed)) (tob (nth_tok 3 fixed))
            (tz (nth_tok 4 fixed)) (tz (nth_tok 5 fixed)) (tz (nth_tok 6 fixed)) (tz (nth_tok 7 fixed))
            (tob (nth_tok 8 fixed)) (tz (nth_tok 9 fixed)) (tz (nth_tok 10 fixed)) (tz (nth_tok 11 fixed))
-           (tz (nth_tok 12 fixed)) (tz (nth_tok 13 fixed)) (tz (nth_tok 14 fixed)) alpn pay.
+           (tz (nth_tok 12 fixed)) (tz (nth_tok 13 fixed)) (tz (nth_tok 14 fixed)) alpn pay ext.
 
 Definition parse_c (a : list tok) : cdecl :=
   mk_cdecl (tbs (nth_tok 0 a)) (tz (nth_tok 1 a)) (tz (nth_tok 2 a)) (tz (nth_tok 3 a)) (tz (nth_tok 4 a)) (tz (nth_tok 5 a))
@@ -132,7 +134,7 @@ Definition listener_rec (l : lst) : list tok :=
   [TN (l_kind l); TB (l_addr l); tn_bool (l_active l); tn_bool (l_expect l); ob (l_public l);
    TN (l_ft l); TN (l_bt l); TN (l_ct l); TN (l_rt l); ob (l_sticky l); TN (l_dh11 l); TN (l_hsts l); TN (l_hsts_age l);
    TN (l_max_rx l); TN (l_max_flows l); TN (l_cert l); tn_nat (List.length (l_alpn l))]
-  ++ map TB (l_alpn l) ++ [tn_nat (List.length (l_pay l))] ++ l_pay l.
+  ++ map TB (l_alpn l) ++ [tn_nat (List.length (l_pay l))] ++ l_pay l ++ [tn_nat (List.length (l_ext l))] ++ l_ext l.
 
 Definition cluster_rec (c : clu) : list tok :=
   [TB (c_id c); tn_bool (c_sticky c); tn_bool (c_redirect c); TN (c_pp c); TN (c_lb c); TN (c_lm c); TN (c_http2 c);
